@@ -78,7 +78,7 @@ def sample(raws, n, seed, need):
 L3_SMALL = dict(nbuf=2, ports=2, ips=["a", "b", "g"], consts=dict(MAX_BUFFERED_PER_IP=1))
 L3_CFG = {
     "EX_edges_t5.cfg": dict(L3_SMALL, consts=dict(MAX_BUFFERED_PER_IP=1, ARP_TIMEOUT=10)),
-    "EX_edges_t45.cfg": dict(L3_SMALL, consts=dict(MAX_BUFFERED_PER_IP=1, ARP_TIMEOUT=6)),
+    "EX_edges_t45.cfg": dict(L3_SMALL, consts=dict(MAX_BUFFERED_PER_IP=1, ARP_TIMEOUT=5)),
     "EX_edges_max2.cfg": dict(L3_SMALL, nbuf=3, consts=dict(MAX_BUFFERED_PER_IP=2, ARP_TIMEOUT=10)),
     "EX_edges_gw.cfg": dict(L3_SMALL, consts=dict(MAX_BUFFERED_PER_IP=1, ARP_TIMEOUT=10)),
     "EX_edges_noarp.cfg": dict(L3_SMALL, consts=dict(MAX_BUFFERED_PER_IP=1, ARP_TIMEOUT=10), arp_for_unknowns=False),
@@ -93,16 +93,23 @@ ARP_REAL = dict(nbuf=6, ports=3, ips=["a", "b", "h", "g"], timeout=240)
 
 
 def _tlc_all(ctx, jobs, ex):
-  """all TLC runs of the tier side by side: model checking (coverage on) and exports (one worker each)"""
-  spec = [dict(spec_dir="l3", module=m, cfg=c, tag="X05", timeout=2400) for (m, c, _, _) in jobs]
-  spec += [dict(spec_dir="l3", module=m, cfg=c, workers=1, coverage=False, tag="X05", timeout=2400, **kw) for (m, c, kw) in ex]
+  """all TLC runs of the tier side by side: model checking (coverage on) and exports (one worker each).
+  A job with export=True is a model-checking run whose config also carries ACTION_CONSTRAINT ExportT (one
+  worker, so that every PrintT is one line); an `ex` entry dict(job=i) takes its behaviours from job i."""
+  spec = [dict(spec_dir="l3", module=j[0], cfg=j[1], tag="X05", timeout=2400, **(dict(workers=1) if len(j) > 4 and j[4] else {}))
+          for j in jobs]
+  own = [e for e in ex if "job" not in e[2]]
+  spec += [dict(spec_dir="l3", module=m, cfg=c, workers=1, coverage=False, tag="X05", timeout=2400, **kw) for (m, c, kw) in own]
   res = tlc.run_many(spec, parallel=6)
-  for (m, c, acts, name), r in zip(jobs, res):
+  for r in res:
+    r.stdout = ""                # everything needed has been parsed; an export is some 100 MB of text
+  for j, r in zip(jobs, res):
     if r.violated:
-      raise tlc.TLCError("%s %s: the spec violates its own property %s:\n%s" % (m, c, r.violated, r.error_trace))
-    tlc.require_coverage(r, acts, name)
-    ctx.add_model(name, r)
-  return res[len(jobs):]
+      raise tlc.TLCError("%s %s: the spec violates its own property %s:\n%s" % (j[0], j[1], r.violated, r.error_trace))
+    tlc.require_coverage(r, j[2], j[3])
+    ctx.add_model(j[3], r)
+  it = iter(res[len(jobs):])
+  return [res[e[2]["job"]] if "job" in e[2] else next(it) for e in ex]
 
 
 def run(ctx):
@@ -129,11 +136,12 @@ def run(ctx):
       "code does (see notes/X05.md, Defects observed); the Strict = TRUE configs are model-checked only"]
 
   # 1. the properties on the models
-  jobs = [("MCL3", "MC_small.cfg", L3_ACTIONS + ["IpWaitForget"], "L3Learn small"),
-          ("MCArp", "MCA_small.cfg", ARP_ACTIONS + ["ArpInDemoteStatic", "ArpInUseStale", "ArpInVlanMangled", "Set", "Del"], "ArpResp small"),
-          ]
+  # (the two small models are checked and exported by the same TLC run: MCX_small = MC_small + ExportT)
+  jobs = [("MCL3", "MCX_small.cfg", L3_ACTIONS + ["IpWaitForget"], "L3Learn small", True),
+          ("MCArp", "MCAX_small.cfg", ARP_ACTIONS + ["ArpInDemoteStatic", "ArpInUseStale", "ArpInVlanMangled"], "ArpResp small", True)]
   if not quick:
-    jobs += [("MCL3", "MC_strict.cfg", L3_ACTIONS + ["IpWaitRelease"], "L3Learn small, Strict (documented intent)"),
+    jobs += [("MCArp", "MCA_small.cfg", ARP_ACTIONS + ["ArpInDemoteStatic", "ArpInUseStale", "ArpInVlanMangled", "Set", "Del"], "ArpResp small + console"),
+             ("MCL3", "MC_strict.cfg", L3_ACTIONS + ["IpWaitRelease"], "L3Learn small, Strict (documented intent)"),
              ("MCArp", "MCA_strict.cfg", ARP_ACTIONS + ["ArpInStrict", "Set", "Del"], "ArpResp small, Strict (documented intent)"),
              ("MCL3", "MC_noarp.cfg", [a for a in L3_ACTIONS if a != "IpWait"] + ["IpIgnore"], "L3Learn small, no ARPing"),
              ("MCArp", "MCA_nolearn.cfg", ARP_ACTIONS + ["Set", "Del"], "ArpResp small, no_learn, eat_packets=False"),
@@ -143,27 +151,31 @@ def run(ctx):
              ("MCArp", "MCA_mid.cfg", ARP_ACTIONS + ["ArpInDemoteStatic", "ArpInUseStale", "Set", "Del"], "ArpResp mid (longer timeout, 2 buffers, console)")]
 
   # 2. spec -> code
-  nsim = 30 if quick else 800
-  ex = [("MCL3", "EX_edges_t5.cfg", {}), ("MCL3", "EX_edges_t45.cfg", {}), ("MCArp", "EXA_edges_t1.cfg", {}),
+  nsim = 30 if quick else 600
+  ex = [("MCL3", "EX_edges_t45.cfg", dict(job=0)), ("MCArp", "EXA_edges_t1.cfg", dict(job=1)),
         ("MCL3", "EX_sim.cfg", dict(simulate=dict(num=nsim), depth=61, seed=ctx.seed + 1)),
         ("MCArp", "EXA_sim.cfg", dict(simulate=dict(num=nsim), depth=61, seed=ctx.seed + 2))]
+  later = []
   if not quick:
-    ex += [("MCL3", "EX_edges_noarp.cfg", {}), ("MCArp", "EXA_edges_nolearn.cfg", {}),
-           ("MCL3", "EX_edges_max2.cfg", {}), ("MCL3", "EX_edges_gw.cfg", {}),
-           ("MCArp", "EXA_edges_t5.cfg", {})]
+    # the large edge covers are exported and replayed one after the other (memory: an export is some 100 MB of text)
+    later = [("MCL3", "EX_edges_t5.cfg", {}), ("MCL3", "EX_edges_noarp.cfg", {}), ("MCArp", "EXA_edges_nolearn.cfg", {}),
+             ("MCL3", "EX_edges_max2.cfg", {}), ("MCL3", "EX_edges_gw.cfg", {}), ("MCArp", "EXA_edges_t5.cfg", {})]
   res = _tlc_all(ctx, jobs, ex)
   lap("TLC: model checking + export")
   exercised = {}
-  for (m, c, kw), r in zip(ex, res):
+
+  def consume(m, c, kw, r):
     l3 = m == "MCL3"
     sim = "simulate" in kw
     raws = r.tagged_raw("H" if sim else "T")
+    r.prints = []
     total = len(raws)
     if (sim and total < nsim // 2) or not total:
       raise tlc.TLCError("%s %s exported %d behaviours" % (m, c, total))
     need = ([] if sim else ["IpWaitForget", "IpWait", "TimerFires", "ArpAnswer"] if l3 and "noarp" not in c else
             ["ArpInDemoteStatic", "ArpInUseStale", "ArpInVlanMangled", "ArpInPlain"] if not l3 and "nolearn" not in c else [])
-    behs = sample(raws, total if sim else (1500 if l3 else 2000) if quick else 16000, ctx.seed, need)
+    behs = sample(raws, total if sim else 2500 if quick else 8000, ctx.seed, need)
+    del raws
     if sim:
       params = dict(L3_REAL if l3 else ARP_REAL)
     else:
@@ -183,6 +195,15 @@ def run(ctx):
       if not nctx.violations:
         raise core.Machinery("negative control: a corrupted expectation was not reported by the replay")
       ctx.notes["negctl"] = "corrupted expectation reported by the replay"
+
+  for i, (m, c, kw) in enumerate(ex):
+    consume(m, c, kw, res[i])
+    res[i] = None
+  for (m, c, kw) in later:
+    r = tlc.run("l3", m, c, workers=1, coverage=False, tag="X05", timeout=2400)
+    r.stdout = ""
+    consume(m, c, kw, r)
+    del r
   missing = [a for a in L3_ACTIONS + ARP_ACTIONS + ["IpWaitForget", "IpIgnore", "ArpInDemoteStatic", "ArpInUseStale", "ArpInVlanMangled"]
              if not exercised.get("Up" if a == "ConnUp" else a) and not (quick and a == "IpIgnore")]
   if missing:
@@ -190,7 +211,7 @@ def run(ctx):
   ctx.notes["spec_actions_replayed"] = exercised
 
   # 3. code -> spec
-  ntr = 100 if quick else 2000
+  ntr = 100 if quick else 1500
   for which, drv, mod, cfg in (("l3", "props.X05:drive_l3", "TraceL3", "Trace.cfg"),
                                ("arp", "props.X05:drive_arp", "TraceArp", "TraceA.cfg")):
     traces = core.run_driver(drv, [(ctx.seed * 100003 + i, 50) for i in range(ntr)])
